@@ -5,6 +5,7 @@ import ast
 
 from .. import absint as A
 from .. import lib as L
+from .. import paths as P
 from ..core import AnalysisError, src
 
 ANCHOR = "chameleon.compiler.Compiler.visit_OnError"
@@ -477,6 +478,20 @@ def run(repo, rep, tier):
     # are those of the expression: its statements set the token (C19)
     from . import c19 as _c19
     L.borrow(repo, rep, "R13.1", "C19", _c19._deferred, ("deferred-shape",))
+    ei = repo.func("chameleon.tal.ErrorInfo.__init__")
+    need = {"type", "value", "lineno", "offset"}
+    ok_ei = True
+    for path in P.enum_paths(ei.node.body):
+        if any(e[0] == "raise" for e in path):
+            continue
+        got = {e[1].split(".", 1)[1] for e in path if e[0] == "assign"
+               and e[1].startswith("self.")}
+        if not need <= got:
+            ok_ei = False
+    rep.check(ok_ei, "R13.4", ei.qualname, "the error object has its type, "
+              "value, lineno and offset on every path (the fallback "
+              "expression may read any of them)",
+              construct="error-info-complete", where=L.where(ei))
     L.state_rule(repo, rep)
 
 
